@@ -1,9 +1,10 @@
 PROPERTY = "C06"
 LEVEL = "proof"
-LEAN_MODULES = ["CifModel.Props.C06", "CifModel.Props.C04", "CifModel.Model.StoreSchema"]
+LEAN_MODULES = ["CifModel.Props.C06", "CifModel.Props.C04", "CifModel.Model.StoreSchema", "CifModel.Props.ReviewC06"]
 REQUIRED = ["CifModel.C06_delivers_each_once", "CifModel.C06_packet_complete", "CifModel.C06_open", "CifModel.C06_caller_packet", "CifModel.C06_open_wf", "CifModel.C06_open_refused",
             "CifModel.C06_state_machine", "CifModel.C06_update_only_named_items", "CifModel.C06_close_commits", "CifModel.C06_abort_reverts",
-            "CifModel.C06_frees_cif", "CifModel.C04_inv_reachable", "CifModel.Store.schema_sql_link", "CifModel.Store.C05_paths_link"]
+            "CifModel.C06_frees_cif", "CifModel.C06_packet_is_stored", "CifModel.C06_open_refines", "CifModel.C06_refines_calls",
+            "CifModel.C06_close_abort_refine", "CifModel.C06_documented_codes", "CifModel.C04_wok_step", "CifModel.C04_iterator_tied", "CifModel.C04_second_get_packets_refused", "CifModel.C04_inv_reachable", "CifModel.Store.schema_sql_link", "CifModel.Store.C05_paths_link"]
 GEN = ["ErrCodes", "Schema"]
 FAMILIES = ["iter"]
 EXHAUSTIVE = True
@@ -17,7 +18,22 @@ TRUSTED_BASE = [
 ]
 ASSUMPTIONS = ["Iter.WF (the pending rows can be delivered, positive row numbers) is a hypothesis of the call-sequence theorems; C06_open_wf proves it "
                "for every iterator opened in a state satisfying the store invariant, i.e. (C04_inv_reachable) in every reachable state"]
-PARTIAL = []
+PARTIAL = [
+    "the history-level statements against the documented model — C06_open_refines, C06_refines_calls (every call sequence: code and packet "
+    "of every call, final content, final position), C06_close_abort_refine, C06_packet_is_stored (the packet holds exactly the STORED values) — "
+    "are about the API functions on a Store and take as hypotheses that the store is Good, the iterator tied (IterOk) and inside its "
+    "transaction: C04_wok_step / C04_iterator_tied supply exactly these for every live iterator of a history that keeps to the contract "
+    "(Model/StoreContract inContract: while the iterator is open only its own calls — and a refused further get_packets — work on its CIF); "
+    "they are NOT yet cases of specStep / C04_refines_hist over worlds (the world-level abstraction keeps the iterator table concrete)",
+    "exactly-once delivery rests on distinct row numbers per packet: IterOk.keys (item_value's primary key, part of Inv) and IterOk.sorted",
+    "update packets with a repeated key are excluded (Call.keysOk: a packet is a map); an update naming an item of another loop is "
+    "CIF_WRONG_LOOP and changes nothing (ROLLBACK_TO)",
+    "the older statements through the model's own packet builder (C06_delivers_each_once, C06_packet_complete: groups / fill) remain; "
+    "C06_packet_is_stored replaces them as the statement of WHAT is delivered",
+    "a failing COMMIT in cif_pktitr_close is C17's (C17_close_fault_is_abort); iterators of OTHER CIFs are untouched (cifs_independent)",
+    "'the scalar loop holds at most one packet' is proved as a counter fact (Inv.scalarRows: last_row_num <= 1) plus RowsBelowAll / ScalarCount "
+    "(C04_rows_below), not as a separate C06 theorem",
+]
 LEVEL_TEXT = ("Proof: over ALL sequences of next/update/remove calls (induction over the call list) the packets delivered are exactly the loop's packets "
               "in order, each once, complete with unknown values; the return code of every call is a function of the life-cycle state; close commits, "
               "abort restores the store at creation, either way the CIF is free. Correspondence: every call word up to length 4 (quick) / 6 (thorough) "
